@@ -44,8 +44,9 @@ COL_STYLE = {
 }
 
 
-def gen_motl_rows(rng, n, nan_rate=0.0, wild=True):
-    """n rows x 20 values in canonical field order; None marks a missing value (NaN hole)."""
+def gen_motl_rows(rng, n, nan_rate=0.0, wild=True, blanks=False):
+    """n rows x 20 values in canonical field order; None marks a missing value (NaN hole).  With `blanks` the holes
+    may also swallow a whole particle (all 20 fields missing) or a whole field (missing for every particle)."""
     styles = []
     for c in MOTL_COLS:
         opts = COL_STYLE[c] if wild else [s for s in COL_STYLE[c] if s != "wild"]
@@ -61,6 +62,13 @@ def gen_motl_rows(rng, n, nan_rate=0.0, wild=True):
                 v = None
             row.append(v)
         rows.append(row)
+    if blanks and nan_rate and rows:
+        if rng.chance(0.5):
+            rows[rng.randrange(len(rows))] = [None] * len(styles)
+        if rng.chance(0.3):
+            c = rng.randrange(len(styles))
+            for r in rows:
+                r[c] = None
     return rows
 
 
